@@ -390,4 +390,10 @@ def R10_spliced_route_states(ctx):
     ctx.check(not direct or bool(retrav), "yens_algorithm::run:spur-states-restart", "a candidate is the root path followed by the spur search's own edge traversals, whose states were accumulated from StateModel::initial_state at the spur vertex: the states (and the summary read from route.last()) of every alternative route restart at the spur vertex instead of continuing the root path's totals", chains[0].where(), detail="spur part re-traversed from root.last().result_state")
 
 
-RULES = [R1_edge_step, R2_units, R3_one_slot, R4_turns, R5_summary, R6_edge_cost_formula, R7_reorient, R8_declared_features, R9_synthetic_destination_state, R10_spliced_route_states]
+def R11_cost_vectors_aligned(ctx):
+    """the cost of an edge is priced from the slot of the feature it names: CostModel::new lines weights, rates and state indices up position by position (shared with C07.R5)"""
+    from props.C07 import R5_weights
+    R5_weights(ctx)
+
+
+RULES = [R1_edge_step, R2_units, R3_one_slot, R4_turns, R5_summary, R6_edge_cost_formula, R7_reorient, R8_declared_features, R9_synthetic_destination_state, R10_spliced_route_states, R11_cost_vectors_aligned]
